@@ -9,6 +9,7 @@ one task to another, and the choice is made by the scheduler from the
 """
 
 import hashlib
+import os
 import random
 import sys
 import threading
@@ -59,6 +60,11 @@ class Proc(object):
         return "<Proc %s %s>" % (self.pid, self.name)
 
 
+# library files whose objects are shared between threads of one process (line pre-emption)
+LINE_FILES = ("writing.py", "index.py", "filedb/filestore.py", "util/filelock.py", "util/__init__.py",
+              "codec/memory.py", "filedb/compound.py")
+
+
 class Task(object):
     def __init__(self, kernel, tid, name, proc, fn):
         self.kernel = kernel
@@ -77,6 +83,7 @@ class Task(object):
         self.reaper = None
         self.daemon = False
         self.wait_desc = ""
+        self.in_event = 0
 
     def runnable(self, now):
         if self.state != "ready":
@@ -133,7 +140,7 @@ class Kernel(object):
         self.active = True
         self.main = None
         self._next_pid = 100
-        self.preempt_hook = None
+        self._lines = None
 
     # -- PRNG streams -----------------------------------------------------
 
@@ -191,9 +198,56 @@ class Kernel(object):
         th.start()
         return t
 
+    # -- line-level pre-emption -------------------------------------------
+    #
+    # Storage operations, lock operations and sleeps are scheduling points of their own. Races
+    # between two Python statements with no such call in between (a check-then-insert on a dict
+    # shared by threads, an attribute swapped outside a lock) need pre-emption where real CPython
+    # can pre-empt: between any two lines. In runs that enable it, every task thread traces the
+    # "line" events of the library files whose objects are shared between threads; at a
+    # seed-chosen subset of them (probability p per line, at most `budget` per run) the task
+    # announces a "line" event, at which another runnable task is switched to.
+
+    def enable_lines(self, p, budget, files=None):
+        if files is None:
+            import whoosh
+            base = os.path.dirname(os.path.abspath(whoosh.__file__))
+            files = [os.path.join(base, f) for f in LINE_FILES]
+        self._lines = {"p": p, "left": budget, "rng": self.stream("lines"), "files": frozenset(files), "seen": 0, "visits": {}}
+
+    def _trace_global(self, frame, event, arg):
+        if frame.f_code.co_filename in self._lines["files"]:
+            return self._trace_local
+        return None
+
+    def _trace_local(self, frame, event, arg):
+        if event == "line":
+            st = self._lines
+            st["seen"] += 1
+            # the n-th visit of a line is pre-empted with probability p/n: initialisation paths and
+            # rarely taken branches (where check-then-act races live) count as much as hot loops
+            key = (frame.f_code, frame.f_lineno)
+            n = st["visits"].get(key, 0) + 1
+            st["visits"][key] = n
+            if st["left"] > 0 and st["rng"].random() * n < st["p"]:
+                cur = self.current
+                if (cur is not None and not cur.in_event and cur.thread is threading.current_thread()
+                        and not self.aborting and cur.proc.alive and len(self._runnable(exclude=cur)) > 0):
+                    st["left"] -= 1
+                    self.counters["line_preemptions"] = self.counters.get("line_preemptions", 0) + 1
+                    co = frame.f_code
+                    self._force_other = True
+                    try:
+                        self.event("line", "%s:%s:%d" % (os.path.basename(co.co_filename), co.co_name, frame.f_lineno))
+                    finally:
+                        self._force_other = False
+        return self._trace_local
+
     def _task_body(self, t):
         t.sem.acquire()
         self.current = t
+        if self._lines is not None:
+            sys.settrace(self._trace_global)
         try:
             if self.aborting:
                 raise SimAbort()
@@ -256,9 +310,17 @@ class Kernel(object):
                 return None
             self.now_us = max(self.now_us, min(wakes))
 
+    _force_other = False
+
     def _choose(self, run, cur):
         if len(run) == 1:
             return run[0]
+        if self._force_other and self.replay_schedule is None and cur is not None:
+            # a line pre-emption: the point of it is that somebody else runs now
+            others = [t for t in run if t is not cur]
+            chosen = others[self._sched_rng.randrange(len(others))]
+            self.schedule.append(chosen.id)
+            return chosen
         if self.replay_schedule is not None:
             chosen = None
             if self._replay_pos < len(self.replay_schedule):
@@ -354,6 +416,13 @@ class Kernel(object):
             raise SimAbort()
         if not cur.proc.alive:
             raise SimKilled()
+        cur.in_event += 1
+        try:
+            self._event(cur, kind, detail)
+        finally:
+            cur.in_event -= 1
+
+    def _event(self, cur, kind, detail):
         self.seq += 1
         kc = self.kind_counts
         kc[kind] = kc.get(kind, 0) + 1
